@@ -324,6 +324,50 @@ def relational(run, seed, models, thorough):
     return n
 
 
+def returned_values(run):
+    """What a likelihood function RETURNS is a value: rate matrices, substitution probabilities and motif probabilities handed
+    to the caller may be edited in place by the caller (scaled, diagonal cleared, reused as buffers) without the function's
+    own process changing - the next reading must give the same valid, calibrated matrices."""
+    from cogent3 import get_model, make_aligned_seqs
+
+    aln = make_aligned_seqs({"a": "ACGTACGTTGCA", "b": "ACGTACATTGCA", "c": "ACCTACGTTGAA"}, moltype="dna")
+    n = 0
+    for mname in ("HKY85", "GTR", "GN"):
+        for expm in ("eigen", "checked", "pade", "either"):
+            lf = get_model(mname).make_likelihood_function(tree())
+            lf.set_alignment(aln)
+            lf.set_motif_probs({"T": 0.15, "C": 0.3, "A": 0.35, "G": 0.2})
+            lf.set_expm(expm)
+            readers = {
+                "get_rate_matrix_for_edge": lambda: lf.get_rate_matrix_for_edge("a"),
+                "get_rate_matrix_for_edge(calibrated=False)": lambda: lf.get_rate_matrix_for_edge("a", calibrated=False),
+                "get_all_rate_matrices": lambda: lf.get_all_rate_matrices()[("a",)] if ("a",) in lf.get_all_rate_matrices() else list(lf.get_all_rate_matrices().values())[0],
+                "get_psub_for_edge": lambda: lf.get_psub_for_edge("a"),
+                "get_motif_probs": lambda: lf.get_motif_probs(),
+            }
+            before = {k: np.array(getattr(r(), "array", r()), dtype=float).copy() for k, r in readers.items()}
+            lnl0 = lf.lnL
+            for k, r in readers.items():
+                got = r()
+                arr = getattr(got, "array", got)
+                try:
+                    arr *= 3.0  # the caller edits what it was given
+                    np.fill_diagonal(arr, 0.0) if getattr(arr, "ndim", 1) == 2 else None
+                except (ValueError, TypeError):
+                    continue  # read-only: cannot be edited, fine
+                n += 1
+                tb = float(lf.get_param_value("length", edge="b"))
+                lf.set_param_rule("length", edge="b", init=tb + 0.17)  # something else changes (and back): partial recalculations
+                lf.set_param_rule("length", edge="b", init=tb)
+                after = {k2: np.array(getattr(r2(), "array", r2()), dtype=float) for k2, r2 in readers.items()}
+                bad = [k2 for k2 in before if np.abs(after[k2] - before[k2]).max() > 1e-12]
+                if bad or abs(lf.lnL - lnl0) > 1e-9 * abs(lnl0):
+                    run.fail(f"relational:returned-value-is-the-functions-own:{k}:{mname}:expm={expm}", {"model": mname, "expm": expm, "edited": k, "readings_changed": bad, "lnL_before": lnl0, "lnL_after": float(lf.lnL)},
+                             what="editing a matrix the likelihood function returned changed the function's own process")
+                    break
+    return n
+
+
 def spec_q_backends(run, rec):
     """Every exponentiation back-end on a MarkovQ instance: P(t) against scipy's expm of the SPEC's exact Q (float, harness
     side), row-stochastic, and the same under every setting.  `checked` may refuse (ArithmeticError): a refusal is not a
@@ -405,6 +449,7 @@ def check(run: Run):
         else:
             models += ["MG94HKY", "JTT92"]
         nrel = relational(run, run.seed, models, run.tier == "thorough")
+        nrel += returned_values(run)
     run.cov["traces_validated_against_impl"] = ninst + np_
     run.cov["evaluations"] = ncells + nrel
     run.cov["distinct_nontrivial"] = ninst + np_ + len(models)
